@@ -84,6 +84,8 @@ def run_check(prop, tier, seed, replay=None):
                 broken.append(("leanchecker", "the independent re-check of %s failed: %s" % (mod.LEAN_MODULE, out_lc[-400:])))
             else:
                 ctx.notes.append("leanchecker accepted %s and its imports" % mod.LEAN_MODULE)
+        if info.facts_error:
+            broken.append(("Generated/Facts.lean", "the translator could not read the source: " + info.facts_error))
         forb = common.grep_forbidden()
         for hit in forb:
             broken.append(("source audit", hit))
